@@ -1504,6 +1504,30 @@ fn gen_reads(rng: &mut Rng, n: usize, kind: &str, len: usize, stored: usize, sz:
         }
     };
     out.push(format!("x:{}", if rng.chance(1, 2) { 0 } else { 1usize << 30 }));
+    // directed sweep: whenever the stored data spans more than one page (or more than one IO buffer), every
+    // scan back-end is driven once from a mid-page start across all following page / buffer boundaries
+    // without an early exit, on the vector and on its read-only clone; the random reads below rarely
+    // combine these three (back-end, unaligned start, long range)
+    if stored >= 2 * pp.min(4096) || big {
+        for backend in [0usize, 1usize << 30] {
+            out.push(format!("x:{backend}"));
+            let a = 1 + rng.below((pp.min(stored.max(2)) - 1) as u64) as usize;
+            let target = if rng.chance(2, 3) { 'd' } else { 'o' };
+            let mut ms: Vec<&str> = vec!["fr", "tf", "cr"];
+            if raw || comp { ms.push(if backend == 0 { "so" } else { "sp" }); }
+            let pick = rng.below(ms.len() as u64) as usize;
+            for (j, m) in ms.iter().enumerate() {
+                // two of the methods per back-end (the whole set for big cases would dominate the run time)
+                if big && j != pick && j != (pick + 1) % ms.len() { continue; }
+                let mut r = Rd { target, m: m.to_string(), ..Default::default() };
+                r.f = a;
+                r.t = if rng.chance(1, 2) { MAXU } else { len };
+                if *m == "so" || *m == "sp" { r.t = stored; if target != 'd' { r.target = 'd'; } }
+                r.k = len + 7;
+                out.push(rd_token(&r));
+            }
+        }
+    }
     for i in 0..n {
         if i == n / 2 && rng.chance(1, 2) {
             out.push(format!("x:{}", if rng.chance(1, 2) { 0 } else { 1usize << 30 }));
@@ -1578,7 +1602,12 @@ fn gen_reads(rng: &mut Rng, n: usize, kind: &str, len: usize, stored: usize, sz:
                 let (f, t) = range(rng);
                 r.f = f;
                 r.t = t;
-                r.k = rng.below(6) as usize;
+                // early exit after k elements: mostly a few, sometimes in the middle of the range, sometimes never
+                r.k = match rng.below(10) {
+                    0..=4 => rng.below(6) as usize,
+                    5..=6 => len + 7,
+                    _ => rng.below((t.min(len).saturating_sub(f) as u64).max(1) + 1) as usize,
+                };
             }
         }
         out.push(rd_token(&r));
